@@ -46,7 +46,6 @@ Theorem C04_core_data_needs_grant :
   forall t ops c o,
   let s := fst (Core.exec val upd app norm d t ops) in let outs := snd (Core.exec val upd app norm d t ops) in
   In o outs -> Core.has_data val upd c o = true ->
-  exists i, i < Core.next val upd s /\ Core.owner (Core.insts val upd s i) = c /\ Core.ans (Core.insts val upd s i) = Some true /\
-            In (Core.MqAccess upd i true) ops.
+  exists i, i < Core.next val upd s /\ Core.owner (Core.insts val upd s i) = c /\ In (Core.MqAccess upd i true) ops.
 Proof. exact CoreProofsDEF.core_data_needs_grant. Qed.
 Print Assumptions C04_core_data_needs_grant.
